@@ -166,7 +166,7 @@ def run(ctx):
     ctx.log("plan: %d states, %d edges -> %d scenarios, %d steps" % (ns, ne, nsc, nst))
     tr1 = os.path.join(ctx.scratch, "c11-plan.ndjson")
     ctx.run([drv, "-out", tr1, "-plan", plan])
-    mism, n1 = ctx.validate_events("Trace_KeysetManager", tr1, reset="reset", stage="R:replay of every graph edge")
+    mism, n1 = ctx.validate_events("Trace_KeysetManager", tr1, reset="reset", stage="R:replay of every graph edge", max_findings=3)
     scen = [json.loads(x) for x in open(plan)]
     for m in mism:
         # scenario index = number of reset events up to the mismatch
@@ -178,7 +178,7 @@ def run(ctx):
     ntr = 5000 if ctx.thorough else 200
     tr2 = os.path.join(ctx.scratch, "c11-random.ndjson")
     ctx.run([drv, "-out", tr2, "-random", str(ntr)])
-    mism2, n2 = ctx.validate_events("Trace_KeysetManager", tr2, reset="reset", stage="T:random histories")
+    mism2, n2 = ctx.validate_events("Trace_KeysetManager", tr2, reset="reset", stage="T:random histories", max_findings=3)
     for m in mism2:
         ctx.violation(signature(m), "%s (spec: %s)" % (m["bad"][0], m["bad"][1:]),
                       dict(event=m["event"], spec_says=m["bad"], note="random history; re-run with the same VERIF_SEED"))
